@@ -54,7 +54,7 @@ func minimizeDeath(exe string, s *Script, sig string, tmp string) *Script {
 		return nil
 	}
 	if strings.HasSuffix(sig, "/hang") {
-		timeout = 10 * time.Second // candidates: a legitimate run of a smaller script is far below this
+		timeout = 60 * time.Second // candidates: a legitimate run of a smaller script is far below this
 	}
 	min := MinimizeWith(s, 60, test)
 	timeout = hangTimeout
